@@ -13,6 +13,7 @@ import (
 	"testing"
 
 	"github.com/martian-lang/martian/martian/core"
+	"github.com/martian-lang/martian/martian/syntax"
 	"pgregory.net/rapid"
 
 	"verifharness/jsonx"
@@ -83,6 +84,10 @@ func semCfgFull() *mrogen.ProgCfg {
 }
 
 var caseSeq int
+
+// strictMode: C07 part A - run with the strictest enforcement level and
+// validate every delivered argument against its parameter type.
+var strictMode bool
 
 // excluded counts constructs the generator avoided because of known findings.
 var excluded = map[string]int{}
@@ -202,6 +207,19 @@ func (rc *runCase) checkJobStart(t *rapid.T, ix *modelIndex, j *simrun.Job) {
 			key = "join-chunk-data-differs"
 		}
 		fail(t, "C01", key, "job %s: %s\n  received args %s\n  chunk_defs %s\n  chunk_outs %s\n%s", j, firstDiff, jsonx.Marshal(j.Args), jsonx.Marshal(j.ChunkDefs), jsonx.Marshal(j.ChunkOuts), rc.describe())
+	}
+	if strictMode && j.Stage != nil {
+		u := refsem.ExtUniverse(rc.prog)
+		ins := j.Stage.Ins
+		if j.Phase == "chunk" {
+			ins = append(append([]mrogen.Param{}, ins...), j.Stage.ChunkIns...)
+		}
+		for _, p := range ins {
+			v, _ := j.Args.Get(p.Name)
+			if val := refsem.Valid(u, p.T, v); !val.OK && !val.Ambiguous {
+				fail(t, "C07", "delivered-arg-not-of-declared-type", "job %s: argument %s = %s does not conform to %s\n%s", j, p.Name, jsonx.Marshal(v), p.T, rc.describe())
+			}
+		}
 	}
 	// --- C02: everything it depends on has finished (weakest reading:
 	// for at least one model instance compatible with this job).
@@ -381,7 +399,11 @@ func semCase(t *rapid.T, root string, prog *mrogen.Program) {
 		dir := filepath.Join(root, fmt.Sprintf("sem%d-%d", os.Getpid(), caseSeq))
 		defer os.RemoveAll(dir)
 		src := prog.Source(nil)
-		opts := simrun.Options{StageOpts: stagefn.Opts{NullPct: rapid.SampledFrom([]int{0, 0, 5}).Draw(t, "outNullPct")}}
+		nullChoices := []int{0, 0, 5}
+		if strictMode {
+			nullChoices = []int{0, 5, 20}
+		}
+		opts := simrun.Options{StageOpts: stagefn.Opts{NullPct: rapid.SampledFrom(nullChoices).Draw(t, "outNullPct")}}
 		model := refsem.Eval(prog, &opts.StageOpts)
 		if model.Unsupported != "" {
 			stats.Count("C01", "model_declined:"+model.Unsupported, 1)
@@ -425,6 +447,9 @@ func semCase(t *rapid.T, root string, prog *mrogen.Program) {
 		ix := indexModel(model)
 		ix.trueDeps = refsem.TrueDeps(prog, &opts.StageOpts, model)
 		st := rc.drive(t, ix)
+		if st == core.Failed && strictMode {
+			fail(t, "C07", "run-failed-under-strict-enforcement", "the pipestance failed at the strictest enforcement level although every stage produced conforming outputs: %s\n%s", sim.FatalError(), rc.describe())
+		}
 		if st == core.Failed {
 			fail(t, "C01", "run-failed-without-fault", "the pipestance failed although no job failed: %s\n%s", sim.FatalError(), rc.describe())
 		}
@@ -487,6 +512,11 @@ func semCase(t *rapid.T, root string, prog *mrogen.Program) {
 		sample := func() any {
 			return map[string]any{"program": stats.Trunc(src, 1500), "jobs": njobs, "features": classes, "schedule": stats.Trunc(strings.Join(rc.history, "; "), 600)}
 		}
+		if strictMode {
+			conv := f["projection"] + f["sub-pipeline"] + f["map-call:array"] + f["map-call:map"]
+			stats.Case("C07", njobs >= 1 && conv > 0, digest, append([]string{"accept-run"}, classes...), sample)
+			return
+		}
 		stats.Case("C01", njobs >= 2 && interesting, digest, classes, sample)
 		crossing := false
 		for _, j := range model.Jobs {
@@ -521,4 +551,32 @@ func semCase(t *rapid.T, root string, prog *mrogen.Program) {
 		sort.Strings(c3)
 		stats.Case("C03", nt3, digest, c3, sample)
 	}
+}
+
+// TestC07Accept: accepted programs run at the strictest enforcement level
+// without any binding-resolution or type error, and every delivered
+// argument conforms to its parameter type.
+func TestC07Accept(t *testing.T) {
+	root := workRoot(t)
+	syntax.SetEnforcementLevel(syntax.EnforceError)
+	strictMode = true
+	defer func() {
+		strictMode = false
+		syntax.SetEnforcementLevel(syntax.EnforceDisable)
+	}()
+	rapid.Check(t, func(t *rapid.T) {
+		defer func() {
+			if p := recover(); p != nil {
+				if _, ok := p.(surveySkip); !ok {
+					panic(p)
+				}
+			}
+		}()
+		prog := mrogen.GenProgram(t, semCfg())
+		for k, v := range excluded {
+			stats.Count("C07", "excluded_known:"+k, int64(v))
+			delete(excluded, k)
+		}
+		semCase(t, root, prog)
+	})
 }
